@@ -79,6 +79,26 @@ impl SystemTime {
         SystemTime::now().duration_since(*self)
     }
 }
+impl ::std::ops::Add<Duration> for SystemTime {
+    type Output = SystemTime;
+    /// as std: panics on overflow
+    fn add(self, d: Duration) -> SystemTime {
+        let sum = self.0.wrapping_add(d.secs());
+        if sum < self.0 {
+            panic!("overflow when adding duration to instant");
+        }
+        SystemTime(sum)
+    }
+}
+impl ::std::ops::Sub<Duration> for SystemTime {
+    type Output = SystemTime;
+    fn sub(self, d: Duration) -> SystemTime {
+        if self.0 < d.secs() {
+            panic!("overflow when subtracting duration from instant");
+        }
+        SystemTime(self.0.wrapping_sub(d.secs()))
+    }
+}
 impl serde::Serialize for SystemTime {
     fn serialize<S: serde::Serializer>(&self, s: S) -> ::std::result::Result<S::Ok, S::Error> {
         s.serialize_u32(self.0 .0)
